@@ -111,7 +111,7 @@ Theorem C02_model_table_wf (rules : list rule) (prio : list Z) (roots : list nat
   (forall r, In r rules -> ~ In (NT rootnt) (rhs r)) ->
   end_state rules roots A i = Some qe ->
   wf_items rules (model_ptable R i qe) start (model_items rules A).
-Proof. exact (model_wf_items rules prio roots tEND fuel A rel LA R). Qed.
+Proof. exact (fun H1 H2 H3 => model_wf_items rules prio roots tEND fuel A rel LA R H1 H2 H3 i r0 rootnt start qe). Qed.
 Print Assumptions C02_model_table_wf.
 
 (* ... hence the model driver on the model table accepts only sentences of the user's
